@@ -2,59 +2,119 @@ import PwVerif.Model.Cache
 namespace PwVerif.Cache
 
 /-- the twins agree on everything visible, and a cached input vouches for the outputs -/
-structure Sim (a b : N) : Prop where
+structure Sim (bad : Nat → Bool) (a b : N) : Prop where
   inp : a.inp = b.inp
   out : a.out = b.out
   running : a.running = b.running
   failed : a.failed = b.failed
   job : a.job = b.job
-  jobRun : a.running = true ↔ a.job.isSome
+  jobRun : a.running = true ↔ a.job.isSome = true
   valid : ∀ c, a.cached = some c →
-    (a.running = true ∧ ∃ f, a.job = some (c, f)) ∨ (a.running = false ∧ a.out = some c ∧ c ≠ 0)
+    (a.running = true ∧ a.failed = false ∧ c ≠ 0 ∧ a.job = some c) ∨
+    (a.running = false ∧ a.failed = false ∧ a.out = some c ∧ c ≠ 0 ∧ bad c = false)
 
-theorem step_sim (a b : N) (op : Op) (h : Sim a b) :
-    Sim (step Cfg.repaired true a op).1 (step Cfg.repaired false b op).1 ∧
-    (step Cfg.repaired true a op).2 = (step Cfg.repaired false b op).2 := by
+/-- the cached twin would answer from the cache now -/
+def N.hits (n : N) : Bool := n.cached == some n.inp && (!n.running && n.ready)
+
+theorem runLike_sim (bad : Nat → Bool) (a b : N) (e : Bool) (h : Sim bad a b)
+    (hmiss : e = true → a.hits = false) :
+    Sim bad (runLike Cfg.repaired bad true a e).1 (runLike Cfg.repaired bad false b e).1 ∧
+    (runLike Cfg.repaired bad true a e).2 = (runLike Cfg.repaired bad false b e).2 := by
   obtain ⟨hi, ho, hr, hf, hj, hjr, hv⟩ := h
+  obtain ⟨ai, ao, ar, af, ac, aj⟩ := a
+  obtain ⟨bi, bo, br, bf, bc, bj⟩ := b
+  simp only at hi ho hr hf hj hjr hv
+  subst hi ho hr hf hj
+  simp only [N.hits, N.ready] at hmiss
+  by_cases hz : ai = 0 <;> cases ar <;> cases af <;> cases e <;> cases hb : bad ai <;> cases ac <;>
+    simp_all [runLike, Cfg.repaired, N.ready] <;>
+    (try split) <;>
+    (try (first | refine ⟨⟨?_, ?_, ?_, ?_, ?_, ?_, ?_⟩, ?_⟩ | refine ⟨?_, ?_, ?_, ?_, ?_, ?_, ?_⟩)) <;>
+    (try simp_all) <;> (try grind)
+
+theorem step_sim (bad : Nat → Bool) (a b : N) (op : Op) (h : Sim bad a b)
+    (hmiss : op = .submit → a.hits = false) :
+    Sim bad (step Cfg.repaired bad true a op).1 (step Cfg.repaired bad false b op).1 ∧
+    (step Cfg.repaired bad true a op).2 = (step Cfg.repaired bad false b op).2 := by
   cases op with
+  | run => exact runLike_sim bad a b false h (by simp)
+  | submit => exact runLike_sim bad a b true h (fun _ => hmiss rfl)
   | set v =>
-    simp only [step]
-    rw [← hr]
-    cases har : a.running
-    · simp only [Bool.false_eq_true, if_false]
-      refine ⟨⟨rfl, ho, by simp [har, ← hr], hf, hj, by simpa [har] using hjr, ?_⟩, rfl⟩
-      intro c hc
-      have := hv c hc
-      simp [har] at this ⊢
-      exact this
-    · simp only [if_true]
-      exact ⟨⟨hi, ho, hr, hf, hj, hjr, hv⟩, rfl⟩
+    obtain ⟨hi, ho, hr, hf, hj, hjr, hv⟩ := h
+    obtain ⟨ai, ao, ar, af, ac, aj⟩ := a
+    obtain ⟨bi, bo, br, bf, bc, bj⟩ := b
+    simp only at hi ho hr hf hj hjr hv
+    subst hi ho hr hf hj
+    cases ar <;> simp_all [step] <;> (try (refine ⟨?_, ?_, ?_, ?_, ?_, ?_, ?_⟩)) <;> (try simp_all)
   | clearFailed =>
-    simp only [step]
-    exact ⟨⟨hi, ho, hr, rfl, hj, hjr, hv⟩, rfl⟩
+    obtain ⟨hi, ho, hr, hf, hj, hjr, hv⟩ := h
+    obtain ⟨ai, ao, ar, af, ac, aj⟩ := a
+    obtain ⟨bi, bo, br, bf, bc, bj⟩ := b
+    simp only at hi ho hr hf hj hjr hv
+    subst hi ho hr hf hj
+    simp_all [step]
+    refine ⟨?_, ?_, ?_, ?_, ?_, ?_, ?_⟩ <;> (try simp_all) <;> (try grind)
   | complete =>
-    simp only [step]
-    rw [← hj]
-    cases haj : a.job with
-    | none => exact ⟨⟨hi, ho, hr, hf, hj, hjr, hv⟩, rfl⟩
-    | some p =>
-      obtain ⟨v, f⟩ := p
-      simp only
-      cases f
-      · simp only [Bool.false_eq_true, if_false]
-        refine ⟨⟨hi, rfl, rfl, hf, rfl, by simp, ?_⟩, rfl⟩
-        intro c hc
-        have := hv c hc
-        have hrun : a.running = true := hjr.mpr (by simp [haj])
-        simp [hrun, haj] at this
-        right
-        refine ⟨rfl, ?_, ?_⟩
-        · simp [this.1]
-        · sorry
-      · simp only [if_true]
-        refine ⟨⟨hi, ho, rfl, rfl, rfl, by simp, ?_⟩, rfl⟩
-        intro c hc; simp [Cfg.repaired] at hc
-  | run f => sorry
-  | submit f => sorry
+    obtain ⟨hi, ho, hr, hf, hj, hjr, hv⟩ := h
+    obtain ⟨ai, ao, ar, af, ac, aj⟩ := a
+    obtain ⟨bi, bo, br, bf, bc, bj⟩ := b
+    simp only at hi ho hr hf hj hjr hv
+    subst hi ho hr hf hj
+    cases aj with
+    | none => simp_all [step]; refine ⟨?_, ?_, ?_, ?_, ?_, ?_, ?_⟩ <;> (try simp_all)
+    | some v =>
+      cases hb : bad v <;> simp_all [step, Cfg.repaired] <;>
+        (refine ⟨?_, ?_, ?_, ?_, ?_, ?_, ?_⟩) <;> (try simp_all) <;> (try grind)
+
+theorem init_sim (bad : Nat → Bool) : Sim bad N.init N.init := by
+  refine ⟨rfl, rfl, rfl, rfl, rfl, by simp [N.init], by simp [N.init]⟩
+
+/-- along the cached twin's run, no `submit` is issued in a state where it would be answered from
+the cache (a hit returns the outputs at once instead of a future — by design; see
+`submit_hit_settles` for what that hit is equivalent to) -/
+def noSubmitHit (bad : Nat → Bool) (a : N) : List Op → Bool
+  | [] => true
+  | o :: os => (o != .submit || !a.hits) && noSubmitHit bad (step Cfg.repaired bad true a o).1 os
+
+def NoSubmitHit (bad : Nat → Bool) (a : N) (ops : List Op) : Prop := noSubmitHit bad a ops = true
+
+theorem NoSubmitHit.cons {bad a o os} (h : NoSubmitHit bad a (o :: os)) :
+    (o = .submit → a.hits = false) ∧ NoSubmitHit bad (step Cfg.repaired bad true a o).1 os := by
+  simp only [NoSubmitHit, noSubmitHit, Bool.and_eq_true, Bool.or_eq_true, bne_iff_ne, ne_eq,
+    Bool.not_eq_true'] at h
+  refine ⟨?_, h.2⟩
+  intro ho
+  rcases h.1 with h1 | h1
+  · exact absurd ho h1
+  · exact h1
+
+/-- for EVERY such history the cached node and its uncached twin return the same things and end in
+the same visible state -/
+theorem runOps_sim (bad : Nat → Bool) (ops : List Op) (a b : N) (h : Sim bad a b)
+    (hok : NoSubmitHit bad a ops) :
+    (runOps Cfg.repaired bad true a ops).2 = (runOps Cfg.repaired bad false b ops).2 ∧
+    Sim bad (runOps Cfg.repaired bad true a ops).1 (runOps Cfg.repaired bad false b ops).1 := by
+  induction ops generalizing a b with
+  | nil => exact ⟨rfl, h⟩
+  | cons o os ih =>
+    obtain ⟨hs, hr⟩ := step_sim bad a b o h hok.cons.1
+    obtain ⟨ih1, ih2⟩ := ih _ _ hs hok.cons.2
+    simp only [runOps]
+    exact ⟨by rw [hr, ih1], ih2⟩
+
+/-- a `submit` answered from the cache equals, on the uncached twin, the submission followed by the
+completion of that job: same outputs, same visible state -/
+theorem submit_hit_settles (bad : Nat → Bool) (a b : N) (h : Sim bad a b) (hhit : a.hits = true) :
+    let a' := (step Cfg.repaired bad true a .submit)
+    let b' := (step Cfg.repaired bad false (step Cfg.repaired bad false b .submit).1 .complete).1
+    Sim bad a'.1 b' ∧ a'.2 = .ret b'.out := by
+  obtain ⟨hi, ho, hr, hf, hj, hjr, hv⟩ := h
+  obtain ⟨ai, ao, ar, af, ac, aj⟩ := a
+  obtain ⟨bi, bo, br, bf, bc, bj⟩ := b
+  simp only at hi ho hr hf hj hjr hv
+  subst hi ho hr hf hj
+  simp only [N.hits, N.ready] at hhit
+  cases ar <;> cases af <;> cases ac <;> simp_all [step, runLike, Cfg.repaired, N.ready] <;>
+    (try (refine ⟨?_, ?_, ?_, ?_, ?_, ?_, ?_⟩)) <;> (try simp_all) <;> (try grind)
 
 end PwVerif.Cache
